@@ -262,5 +262,8 @@ func SelectEndPoint(addrs []string, user, token string) (addr string, channel Ch
 		}
 		return addr, channel, nil
 	}
+	if err == nil {
+		err = fmt.Errorf("no address to connect to in %v", addrs)
+	}
 	return "", nil, err
 }
